@@ -96,6 +96,10 @@ func TestVerifReplay(t *testing.T) {
 			}
 		}
 	}
+	if status != "reproduced" && v.PoolChoices > 0 {
+		// the real sync.Pool cannot be told which of its free buffers to hand out
+		status = "interp-only"
+	}
 	os.WriteFile(filepath.Join(dir, "native_output.txt"), []byte(out), 0o644)
 	os.WriteFile(filepath.Join(dir, "status.txt"), []byte(status+"\n"), 0o644)
 	return status
